@@ -271,6 +271,64 @@ def row_validator_case(ctx, rng):
         rep.fail('validate-fn:%s:rows' % policy, case, {'expected': exp, 'got': out})
 
 
+def several_resources_case(ctx, rng, idx):
+    """one step checks two or three resources (and may be run twice): a custom handler is asked about every offending value
+    of every resource, and its answer for a row of one resource never decides about a row of another"""
+    rep = ctx.report
+    nres = rng.choice([2, 2, 3])
+    arity = [4, 5][idx % 2]
+    names = ['data%d' % k for k in range(nres)]
+    tables, answers, expect = [], {}, []
+    shared = rng.randrange(3)             # the offending row sits at the same index in every resource
+    for k, nm in enumerate(names):
+        rows = [{'v1': str(10 * k + j), 'w': 'w%d' % j} for j in range(3)]
+        bad = [shared] + ([rng.randrange(3)] if rng.random() < 0.4 else [])
+        for j in set(bad):
+            rows[j]['v1'] = 'bad-%s-%d' % (nm, j)
+        keep_first = (k + idx) % 2 == 0
+        out = []
+        for j, r in enumerate(rows):
+            if j in bad:
+                answers[(nm, j)] = keep_first if j == shared else rng.choice([True, False])
+                if answers[(nm, j)]:
+                    out.append(dict(r))
+            else:
+                out.append({'v1': int(r['v1']), 'w': r['w']})
+        tables.append(rows)
+        expect.append(out)
+    log = []
+
+    def h4(res_name, row, i, e):
+        log.append((res_name, i))
+        return answers[(res_name, i)]
+
+    def h5(res_name, row, i, e, field):
+        log.append((res_name, i))
+        return answers[(res_name, i)]
+    desc = canon.make_descriptor([{'name': nm, 'fields': [('v1', 'integer'), ('w', 'string')]} for nm in names])
+    twice = rng.random() < 0.4
+    case = {'step': 'validate(on_error=<custom %d-argument handler>)' % arity, 'resources': names, 'tables': tables,
+            'answers': {'%s[%d]' % k: v for k, v in answers.items()}, 'same_step_object_run_twice': twice}
+    step = DF.validate(on_error=h4 if arity == 4 else h5)
+    try:
+        with quiet():
+            if twice:
+                Flow(canon.pkg_source(desc, tables), step).results(on_error=None)
+                del log[:]
+            res = Flow(canon.pkg_source(desc, tables), step).results(on_error=None)[0]
+    except Exception as e:  # noqa
+        rep.case('several-resources', case, nontrivial=False)
+        rep.fail('several-resources:raises', case, repr(e)[:300])
+        return
+    rep.case('several-resources', case)
+    got = [[dict(r) for r in rs] for rs in res]
+    if got != expect:
+        rep.fail('several-resources:custom%d:rows' % arity, case, {'expected': expect, 'got': got})
+    if sorted(set(log)) != sorted(answers):
+        rep.fail('several-resources:custom%d:handler-not-asked-about-every-offending-row' % arity, case,
+                 {'asked': sorted(set(log)), 'offending': sorted(answers)})
+
+
 def run(ctx):
     rep = ctx.report
     rep.rule = ('tables of 0-7 rows x 1-4 string fields mixing valid and invalid lexical values (probability 0-0.6 per '
@@ -287,6 +345,9 @@ def run(ctx):
     with quiet():
         for _ in range(ctx.n(120, 1500)):
             row_validator_case(ctx, rng)
+    rng3 = ctx.rng('several-resources')
+    for idx in range(ctx.n(24, 300)):
+        several_resources_case(ctx, rng3, idx)
     if ctx.model.available():
         outs = ctx.model.run([op for _, op, _ in pending])
         for (case, _op, real_c), mo in zip(pending, outs):
